@@ -43,7 +43,7 @@ class C07(Check):
     ASSUMPTIONS = ['timestamps are non-decreasing per key; timeouts are >= 0 (a zero timeout makes every item open a new window, as the statement says)',
                    'closing_mapper returns a bool']
     ANCHORS = ['rxsci/data/time_split.py', 'rxsci/operators/multiplex.py']
-    REQUIRED_TAGS = ['consumer-runs-a-pipeline-built-with-the-same-operator-object', 'top', 'group', 'active', 'inactive', 'no-timeout', 'closing', 'include', 'exclude', 'datetime', 'equal-timestamps', 'gap=timeout', 'day-scale', 'zero-timeout', 'aware-datetimes-mixed-offsets', 'no-timestamps-closing-mapper-only', 'closing-mapper-says-no-with-None-or-empty-string', 'include-flag-given-as-a-non-bool', 'sub-second-timeouts'] + ['operator-object-used-in-two-pipelines'] + ['history-fed-more-than-the-judged-stream'] + PRELUDE_TAGS + ['prelude:overlap']
+    REQUIRED_TAGS = ['consumer-runs-a-pipeline-built-with-the-same-operator-object', 'top', 'group', 'active', 'inactive', 'no-timeout', 'closing', 'include', 'exclude', 'datetime', 'equal-timestamps', 'gap=timeout', 'day-scale', 'zero-timeout', 'aware-datetimes-mixed-offsets', 'no-timestamps-closing-mapper-only', 'closing-mapper-says-no-with-None-or-empty-string', 'include-flag-given-as-a-non-bool', 'sub-second-timeouts', 'naive-timestamps-across-a-daylight-saving-change'] + ['operator-object-used-in-two-pipelines'] + ['history-fed-more-than-the-judged-stream'] + PRELUDE_TAGS + ['prelude:overlap']
     REQUIRED_OBSERVED = ['child_lifetimes_checked', 'parent_lifetimes_checked', 'empty_windows_dropped']
 
     def generate(self, rng, tier, shard, nshards):
@@ -77,6 +77,20 @@ class C07(Check):
         names = ['group', 'top', 'roll', 'split', 'group']
         for j in range(k):
             name = names[j % len(names)]
+            if j % 60 == 41:
+                # naive timestamps on both sides of a daylight-saving change of the process time zone (progs sets one: the epoch of the
+                # 'dt' mapper is noon of the day before the clocks go forward at 02:00), the elapsed time within an hour of a timeout: a
+                # difference taken on local wall-clock instants is off by that hour
+                a, b = [(3600, None), (None, 9000), (7200, 9000), (86400, None)][(j // 60) % 4]
+                t0 = 13 * 3600 - rng.choice([0, 600, 1200])            # 01:00 or a little before, on the night of the change
+                steps = [(a or b) + rng.choice([-3000, -600, 600, 2400, 3000]) for _ in range(rng.choice([1, 2, 3]))]
+                items, t = [t0 - 1800, t0], t0
+                for st in steps:
+                    t += max(1, st)
+                    items.append(t)
+                yield {'cfg': {'active': a, 'inactive': b, 'closing': None, 'include': True, 'time': 'dt'}, 'parent': name, 'parent_node': windows.PARENTS[name](rng),
+                       'items': items, 'dst': True}
+                continue
             a = rng.choice([None, 3, 5, 8, 0]) if j % 7 == 3 else rng.choice([None, 3, 5, 8])
             b = rng.choice([None, 2, 3, 4, 0]) if j % 7 == 5 else rng.choice([None, 2, 3, 4])
             alpha = sorted({0, 1, 2, (a or 3) - 1, a or 3, (a or 3) + 1, (b or 2) - 1, b or 2, (b or 2) + 1})
@@ -126,6 +140,8 @@ class C07(Check):
             out.tags.append('closing-mapper-says-no-with-None-or-empty-string')
         if cfg.get('include_as') and cfg.get('closing'):
             out.tags.append('include-flag-given-as-a-non-bool')
+        if case.get('dst'):
+            out.tags.append('naive-timestamps-across-a-daylight-saving-change')
         if cfg.get('time') == 'dtms':
             out.tags += ['datetime', 'sub-second-timeouts']
         if cfg.get('time') == 'tnone':
